@@ -1,6 +1,7 @@
 package main
 
 import (
+	"sync"
 	"context"
 	"encoding/base64"
 	"errors"
@@ -362,6 +363,7 @@ func newWireBackend(answers []wireAns) *wireBackend {
 			return items(wireCall{name: "tags", repo: repo, last: start})
 		},
 		Referrers_: func(ctx context.Context, repo string, d ociregistry.Digest, at string) ociregistry.Seq[ociregistry.Descriptor] {
+			c03wArtifactSeen.Store(repo+" "+string(d), at) // the one argument the call record does not carry (F44)
 			a := b.pop(wireCall{name: "referrers", repo: repo, dg: string(d)})
 			if !a.ok {
 				return ociregistry.ErrorSeq[ociregistry.Descriptor](a.err)
@@ -507,7 +509,7 @@ func wireDo(cl ociregistry.Interface, base string, c wireCall) string {
 	case "referrers":
 		var ds []ociregistry.Descriptor
 		var rerr error
-		cl.Referrers(ctx, c.repo, dg, "")(func(d ociregistry.Descriptor, err error) bool {
+		cl.Referrers(ctx, c.repo, dg, c03wArtifactType)(func(d ociregistry.Descriptor, err error) bool {
 			if err != nil {
 				rerr = err
 				return false
@@ -574,6 +576,12 @@ func wireRun(x wireLine) string {
 	srv.Close()
 	return fmt.Sprintf("calls %d", len(backend.calls)) + strings.Join(append([]string{""}, backend.calls...), " ") + " | " + out
 }
+
+// The artifact type every Referrers call of this engine asks for, and what the backend behind the server was handed
+// for (repository, digest): "the backend receives exactly the operations, with exactly the arguments" (F44).
+const c03wArtifactType = "application/vnd.verif.sig"
+
+var c03wArtifactSeen sync.Map
 
 func (*c03w) Impl(c Case) []string {
 	out := make([]string, len(c.Lines))
@@ -1062,6 +1070,12 @@ func (*c03w) Oracle(c Case, impl []string) []Failure {
 			continue
 		}
 		out := impl[i]
+		if x.c.name == "referrers" {
+			if got, ok := c03wArtifactSeen.Load(x.c.repo + " " + x.c.dg); ok && got.(string) != c03wArtifactType {
+				fs = append(fs, Failure{Class: "wire1-referrers-artifact-type-dropped", Oracle: "wire_call_exact(arguments)", Index: i,
+					Expected: "Referrers(…, artifactType " + c03wArtifactType + ")", Observed: "Referrers(…, artifactType \"" + got.(string) + "\")"})
+			}
+		}
 		fail := func(class, oracle, want string) {
 			fs = append(fs, Failure{Class: class, Oracle: oracle, Index: i, Expected: want, Observed: out})
 		}
